@@ -240,6 +240,7 @@ def run_group(tag, crate, harness_files, harnesses, repo="/repo", features=None,
     out = KaniGroupResult()
     t0 = time.time()
     base, ws, lock = prepare_workspace(tag, repo)
+    tlock = None
     try:
         inject(ws, crate, harness_files, host=host)
         try:
@@ -253,6 +254,10 @@ def run_group(tag, crate, harness_files, harnesses, repo="/repo", features=None,
         target = os.path.join(CACHE, crate + ("-nd" if no_default_features else "") +
                               ("-" + "-".join(features) if features else "") + target_tag)
         os.makedirs(target, exist_ok=True)
+        # one user of a target directory at a time, for the build AND the verification phase: cargo's own lock covers the
+        # build only, and the goto binaries CBMC reads afterwards would be replaced by a concurrent build of another tree
+        tlock = open(os.path.join(target, ".verif.lock"), "w")
+        fcntl.flock(tlock, fcntl.LOCK_EX)
         out.cmd, text = _invoke(ws, crate, target, harnesses, features, no_default_features, jobs, harness_timeout,
                                 total_timeout, extra_args, False)
         clean = _ansi.sub("", text)
@@ -283,6 +288,11 @@ def run_group(tag, crate, harness_files, harnesses, repo="/repo", features=None,
         return out
     finally:
         out.wall_s = time.time() - t0
+        try:
+            fcntl.flock(tlock, fcntl.LOCK_UN)
+            tlock.close()
+        except Exception:
+            pass
         cleanup(base, lock)
 
 
